@@ -275,6 +275,8 @@ def source_from_description(desc):
                     base.update({"location": f"V{k + 1}", "tilt": 90.0, "angle": math.degrees(math.atan2(n[0], n[1])) % 360})
                 elif loc == "Top":
                     base.update({"location": "TOP", "tilt": 0.0, "angle": 0.0})
+                elif isinstance(loc, dict) and "TopAz" in loc:
+                    base.update({"location": "TOP", "tilt": 0.0, "angle": loc["TopAz"]})
                 elif loc == "Bottom":
                     base.update({"location": "BOTTOM", "tilt": 180.0, "angle": 180.0})
                 else:
